@@ -5,7 +5,7 @@
     source are regenerated into Gen/FsWalk_gen.v on every run and the premises [backend_keys_ok], [walk_ok] (and
     the chain parameters) are discharged for them by kernel-checked instance obligations in checks/c19.py. *)
 From Coq Require Import List NArith Bool Permutation.
-From SV Require Import SM.FsChain SM.FsChainProofs SM.FsChainRel SM.FsChainWitness SM.FsChainRaw SM.FsChainCompose SM.FsChainComplete SM.FsChainNorm SM.FsChainForms SM.FsChainFormsProofs SM.FsChainWhole SM.FsChainWholeProofs SM.FsChainRead SM.FsChainReadProofs SM.FsChainMixed SM.FsChainMixedProofs.
+From SV Require Import SM.FsChain SM.FsChainProofs SM.FsChainRel SM.FsChainWitness SM.FsChainRaw SM.FsChainCompose SM.FsChainComplete SM.FsChainNorm SM.FsChainForms SM.FsChainFormsProofs SM.FsChainWhole SM.FsChainWholeProofs SM.FsChainRead SM.FsChainReadProofs SM.FsChainMixed SM.FsChainMixedProofs SM.FsChainAdd SM.FsChainAddProofs.
 Import ListNotations.
 Open Scope N_scope.
 
@@ -517,3 +517,68 @@ Theorem c19_chain_directory_case_refuted :
   /\ mchain_get mixed_raw [65] = Some ([65], [1]) /\ mchain_get mixed_fold [65] = Some ([65], [1])
   /\ Forall (mmember_ok [65]) mixed_raw.
 Proof. exact mchain_case_needs_exact_refuted. Qed.
+
+(** ** Round 4: the glue around the anchored functions. *)
+
+(** [add_sys] over a whole program.  Whatever the sequence of calls: when the method always inserts ([guard_ok]: no
+    return before the insertion) - first for priority, last otherwise ([actions_ok]) - the chain is the priority
+    members latest first followed by the others in the order they were added; every member that was added is mounted. *)
+Theorem c19_chain_history_order : forall (A : Type) g (same : A -> A -> bool) prio plain (h : list (bool * A)),
+  guard_ok g = true -> actions_ok prio plain = true ->
+  build_chain g same prio plain h = priority_order h.
+Proof. intros A. exact build_chain_priority_order. Qed.
+Theorem c19_chain_history_mounts_all : forall (A : Type) g (same : A -> A -> bool) prio plain (h : list (bool * A)) m,
+  guard_ok g = true -> actions_ok prio plain = true ->
+  In m (map snd h) -> In m (build_chain g same prio plain h).
+Proof. intros A. exact build_chain_mounts_all. Qed.
+(** ... hence the chain sentence of the property for the chain a program ends up with: every lookup form is the
+    specification applied to the members in priority order (members of any backend kind, any subfolders). *)
+Theorem c19_chain_history_spec : forall g same prio plain em (h : list (bool * kmember)) q,
+  guard_ok g = true -> actions_ok prio plain = true -> exists_mode_ok em = true ->
+  Forall kmember_ok (map snd h) ->
+  let ms := build_chain g same prio plain h in
+  let sp := map k_spec (priority_order h) in
+  chain_get (map k_member ms) q = chain_spec sp q
+  /\ chain_open (map k_member ms) q = chain_spec sp q
+  /\ chain_exists em (map k_xmember ms) q = is_some (chain_spec sp q)
+  /\ chain_read ms q = option_map snd (chain_spec sp q).
+Proof. exact chain_history_spec. Qed.
+(** A guard `if (sys, prefix) in self.systems: return` (seeded c19_5) compares members the way [FileSystem.__eq__] does -
+    kind and path label: a second archive mounted under the label of the first is dropped (its name is missing although
+    a member that was added has it) and a priority re-add does not promote the member. *)
+Theorem c19_chain_add_guard_refuted :
+  chain_spec (map d_spec (priority_order hist_twins)) [121] = Some ([121], [2])
+  /\ chain_spec (map d_spec (build_chain AddSkipMounted same_label (InsertAt 0) Append hist_twins)) [121] = None
+  /\ chain_spec (map d_spec (build_chain AddAlways same_label (InsertAt 0) Append hist_twins)) [121] = Some ([121], [2])
+  /\ chain_spec (map d_spec (priority_order hist_promote)) [120] = Some ([120], [2])
+  /\ chain_spec (map d_spec (build_chain AddSkipMounted same_label (InsertAt 0) Append hist_promote)) [120] = Some ([120], [1]).
+Proof. exact add_guard_skips_equal_refuted. Qed.
+
+(** The names [RawFileSystem.walk_folder] lists, as translated ([raw_rel]): with the relative path of the joined file
+    name the listing is [raw_walk] - every listed name is a stored name and [c19_raw_walk_exact] / [..._lookup_closed]
+    speak about what is listed. *)
+Theorem c19_raw_walk_lists_stored_names : forall r ops fs folder,
+  raw_rel_ok r = true ->
+  raw_walk_rel r ops fs folder = raw_walk ops fs folder /\ (forall e, In e (raw_walk_rel r ops fs folder) -> In e fs).
+Proof.
+  intros r ops fs folder H. split; [destruct r; [apply raw_walk_rel_file|discriminate]|].
+  intros e. apply raw_walk_rel_lists_stored. exact H.
+Qed.
+(** Joining the directory's relative path with the file name afterwards (seeded c19_6) lists a root file "x" as "./x":
+    not a stored name, and in a chain the de-duplicated walk lists the name twice. *)
+Theorem c19_raw_walk_dirjoin_refuted :
+  map fst (raw_walk_rel RawRelDirJoin [OSlash] rootfile []) = [[46; 47; 120]]
+  /\ map fst (raw_walk_rel RawRelFile [OSlash] rootfile []) = [[120]]
+  /\ map fst (chain_walk RelDropSegs [OFold] (chain_dir_mem RawRelDirJoin) []) = [[46; 47; 120]; [120]]
+  /\ map fst (chain_walk RelDropSegs [OFold] (chain_dir_mem RawRelFile) []) = [[120]]
+  /\ chain_get (chain_dir_mem RawRelDirJoin) [120] = Some ([120], [1]).
+Proof. exact raw_rel_dirjoin_refuted. Qed.
+
+(** The known finding case-duplicate-winner-vpk-differs cannot be repaired inside VPKFileSystem: "the file stored last
+    wins" ([spec_lookup], what the in-memory and zip backends do) is not a function of any container that gives the
+    same result for the two insertion orders of "a/x" and "A/x" - and VPK.write_dirfile sorts (the check confirms on
+    every run that the two archives are byte-identical). *)
+Theorem c19_case_duplicate_winner_needs_order : forall (C : Type) (container : list file -> C) (serve : C -> str -> option file),
+  container [dup_a; dup_A] = container [dup_A; dup_a] ->
+  ~ (forall fs q, serve (container fs) q = spec_lookup fs q).
+Proof. intros C. exact winner_needs_order. Qed.
